@@ -284,6 +284,7 @@ class FuncRenderer:
         """GIMPLE type text -> C type text with @S / @T placeholders"""
         t = t.strip()
         t = re.sub(r'\b(const|volatile|register|restrict|static)\b', ' ', t)
+        t = re.sub(r'\bsizetype\b', 'unsigned long', re.sub(r'\bssizetype\b', 'long', t))
         t = t.replace('&', '*')
         if '(*)' in t or re.search(r'\(\*\w*\)', t):
             return 'void *'
@@ -528,6 +529,7 @@ class FuncRenderer:
         s = self.casts(s)
         s = self.idents(s)
         s = s.replace('<retval>', '__retval')
+        s = s.replace('(sizetype)', '(unsigned long)').replace('(ssizetype)', '(long)')
         s = re.sub(r'&(@STR\d+@)', r'((char *)\1)', s)
         if re.search(r'\b__(ABS|MIN|MAX|VIEW|BIT_FIELD_REF|BIT_INSERT|REALPART|IMAGPART|ROTATE\w*|UNLT|UNLE|UNGT|UNGE|UNEQ|LTGT|UNORDERED|ORDERED)\b', s) or ' r>> ' in s or ' r<< ' in s:
             raise G2CError('unsupported GIMPLE operator in %r (%s)' % (s, self.f.pretty))
